@@ -193,5 +193,28 @@ pub fn generate(rng: &mut Rng, thorough: bool) -> Vec<String> {
             v.push(format!("pt_round {} {u} {inc} ceil", tod(DAY - 1 - t % 1000)));
         }
     }
+    // ---- wall-clock readings next to the limits of the instant range, in fixed-offset zones (the conversion returns
+    // a ZonedDateTime: inside the range or a RangeError, exactly at the limit shifted by the offset) ----
+    {
+        let max_ns: i128 = 8_640_000_000_000_000_000_000;
+        let day_ns: i128 = 86_400_000_000_000;
+        for off_min in [-1439i128, -720, -60, -1, 0, 1, 60, 330, 720, 1439] {
+            for sign in [-1i128, 1] {
+                for delta in [-1i128, 0, 1, 1_000_000_000, -1_000_000_000, 1_800_000_000_000, -1_800_000_000_000, 3_600_000_000_000, -3_600_000_000_000] {
+                    // the instant at / next to the limit, read in the zone
+                    let inst = sign * max_ns + delta;
+                    let local = inst + off_min * 60_000_000_000;
+                    let (d, t) = (local.div_euclid(day_ns), local.rem_euclid(day_ns));
+                    let (y, m, dd) = { let (a, b, c) = temporal_rs::verif_hooks::ymd_from_epoch_milliseconds((d * 86_400_000) as i64); (a as i128, b as i128, c as i128) };
+                    let (h, mi, sc, ms, us, ns) = super::c07::split_ns(t);
+                    for dis in ["compatible", "reject"] {
+                        v.push(format!("tz_inst o:{off_min} {y} {m} {dd} {h} {mi} {sc} {ms} {us} {ns} {dis}"));
+                    }
+                    v.push(format!("tz_pdat o:{off_min} {y} {m} {dd} {h} {mi} {sc} {ms} {us} {ns}"));
+                    v.push(format!("tz_sod o:{off_min} {y} {m} {dd}"));
+                }
+            }
+        }
+    }
     v
 }
